@@ -52,7 +52,7 @@ RULE = ("conversion: random lists of 1-7 declarations (int / float / mixed tuple
         "x path x surrogate family x seed, 4000+ draws per dimension. non-trivial = at least one accepted declaration (conversion) / at least one dimension "
         "with a support or distribution verdict (sampling)")
 
-F_CHECK, F_CONVDECL, F_OKCONV, F_OKSUPPORT, F_SPEC, F_CHI2, F_CONVSPACE, F_VALUES, F_QNORM, F_QCATNORM = range(1001, 1011)
+F_CHECK, F_CONVDECL, F_OKCONV, F_OKSUPPORT, F_SPEC, F_CHI2, F_CONVSPACE, F_VALUES, F_QNORM, F_QCATNORM, F_INACTIVE = range(1001, 1012)
 CONV_CLAUSE = {0: "conv_unknown", 1: "names", 2: "number_of_dimensions", 3: "name_or_order", 4: "dimension_kind", 5: "bounds", 6: "log_flag", 7: "categories",
                8: "declaration_not_accepted"}
 SUPPORT_CLAUSE = {1: "support_outside_or_wrong_type", 2: "support_value_never_drawn", 3: "lower_end_not_reached", 4: "upper_end_not_reached", 5: "no_draws"}
@@ -509,6 +509,8 @@ def chunk_sizes(case):
     n = case["n"]
     if not case.get("chunks"):
         return [n]
+    if case["chunks"] == "ones":
+        return [1] * n
     out, pat, i = [], [1, 3, 1, 64, 500, 2, 1, 250], 0
     while sum(out) < n:
         out.append(min(pat[i % len(pat)], n - sum(out)))
@@ -750,6 +752,7 @@ def check_sampling(case):
         return dict(res, ok=False, clause="number_of_draws", detail=dict(want=case["n"], got=len(rows)))
     if any(set(r.keys()) != set(names) for r in rows[:50]) or (rows and list(rows[0].keys()) != names and case["path"] != "random_search"):
         return dict(res, ok=False, clause="draw_keys", detail=dict(names=names, first=list(rows[0].keys())))
+    ucols = []
     for j, name in enumerate(names):
         spec = specs[name]
         col = [canon(r[name]) for r in rows]
@@ -757,7 +760,7 @@ def check_sampling(case):
             def active(nm, r):  # a child is active when its parent is active and has the value
                 while nm in cond:
                     par, val = cond[nm]
-                    if not _same(canon(r[par]), val):
+                    if not (canon(r[par]) == val and isinstance(canon(r[par]), bool) == isinstance(val, bool)):  # Python ==: 3.0 for a declared 3 on the ConfigSpace path
                         return False
                     nm = par
                 return True
@@ -765,7 +768,10 @@ def check_sampling(case):
             act = [active(name, r) for r in rows]
             inactive = [v for v, a in zip(col, act) if not a]
             col = [v for v, a in zip(col, act) if a]
-            first = spec[1] if spec[0] == 0 else (spec[1][0] / spec[1][1] if spec[0] == 1 else dec_atom(spec[1][0], {v: k for k, v in toks.t.items()}))
+            if not col:
+                res["desc"].append("no_active_rows")
+                continue
+            first = dec_atom(m.call(F_INACTIVE, spec)[0], {v: k for k, v in toks.t.items()})  # the model's inactive value
             if any(not _same(v, first) for v in inactive) and not bad:  # reported only when the oracles find nothing
                 bad = dict(kind="corr", clause="inactive_value", detail=dict(name=name, want=first, got=[v for v in inactive if not _same(v, first)][:3]))
         tr = trs[j] if trs is not None else "configspace"
@@ -786,6 +792,15 @@ def check_sampling(case):
         # ---- distribution clause: a TEST ----
         if spec[0] == 2 and len(spec[1]) == 1:
             continue
+        if spec[0] == 1 and name not in cond:
+            lo_f, hi_f = spec[1][0] / spec[1][1], spec[2][0] / spec[2][1]
+            if (hi_f - lo_f) > 1e-3 * max(abs(lo_f), abs(hi_f)):
+                # draws of a continuous law do not repeat - neither within one call nor from one call to the next on the same object
+                nd = len(set(col))
+                if nd < 0.99 * len(col):
+                    return dict(res, ok=False, clause="repeated_draws", sig=dict(dsig, clause="repeated_draws"),
+                                detail=dict(name=name, declared=dict(decls)[name], n=len(col), distinct=nd, calls=len(chunk_sizes(case)), decided_by="python (statistical test, level other)"))
+                ucols.append((name, col))
         small, okchi, num, ntot, kk, counts = m.call(F_CHI2, [spec, draws])
         if small:
             res["desc"].append("dist=chi2_exact")
@@ -801,6 +816,17 @@ def check_sampling(case):
             if pv is not None and pv < P_THRESHOLD:
                 return dict(res, ok=False, clause=tname, sig=dict(dsig, clause=tname),
                             detail=dict(name=name, declared=dict(decls)[name], n=len(col), p=pv, info=info, decided_by="python/scipy (statistical test, level other)"))
+    # a random design: the dimensions are drawn independently of each other (rank correlation of pairs of real dimensions; TEST)
+    if len(ucols) >= 2 and not case.get("conditions"):
+        from scipy import stats
+
+        for a in range(min(len(ucols), 4)):
+            for b in range(a + 1, min(len(ucols), 4)):
+                rho = float(stats.spearmanr(ucols[a][1], ucols[b][1]).statistic)
+                if abs(rho) * math.sqrt(len(rows)) > 6.5:  # |rho| sqrt(n) ~ N(0,1): p < 1e-10
+                    return dict(res, ok=False, clause="dimensions_correlated", sig=dict(sig, clause="dimensions_correlated"),
+                                detail=dict(a=ucols[a][0], b=ucols[b][0], spearman=rho, n=len(rows), decided_by="python/scipy (statistical test, level other)"))
+        res["desc"].append("dist=independence")
     # the problem is still what was declared: convert it once more AFTER all the sampling calls and judge the dimensions again
     from deephyper.hpo._problem import convert_to_skopt_space
 
@@ -863,6 +889,102 @@ def gen_quantile(count):
                 cats = ["c%d" % j for j in range(k)]
                 rng.shuffle(cats)
                 yield dict(kind="cat", cats=cats, u=[num, den])
+    return gen
+
+
+# ------------------------------------------------------------------------------------------------------------------ extreme quantile arguments
+def make_stub(mode):
+    """A RandomState whose uniform draws are all 0.0 (mode 'min') or all the largest float below 1.0 (mode 'max') and whose
+    integer draws are the smallest / largest legal value: the two ends of the model's quantile arguments (u = 0, u -> 1,
+    k = 0, k = hi - lo), fed through the public Dimension.rvs."""
+    import numpy as np
+
+    class Stub(np.random.RandomState):
+        def __init__(self):
+            super().__init__(0)
+            self.calls = []
+
+        def _u(self):
+            return 0.0 if mode == "min" else float(np.nextafter(1.0, 0.0))
+
+        def uniform(self, low=0.0, high=1.0, size=None):
+            self.calls.append("uniform")
+            v = low + (high - low) * self._u()
+            return np.full(size, v) if size is not None else v
+
+        def random_sample(self, size=None):
+            self.calls.append("random_sample")
+            return np.full(size, self._u()) if size is not None else self._u()
+
+        random = random_sample
+        rand = lambda self, *shape: self.random_sample(shape if shape else None)
+
+        def randint(self, low, high=None, size=None, dtype=int):
+            self.calls.append("randint")
+            if high is None:
+                low, high = 0, low
+            v = low if mode == "min" else high - 1
+            return np.full(size, v, dtype=dtype) if size is not None else v
+
+    return Stub()
+
+
+def check_extremes(case):
+    """Deterministic version of 'both ends occur, nothing outside': the samplers at the extreme quantile arguments."""
+    import numpy as np
+    from deephyper.hpo._problem import convert_to_skopt_space
+
+    decls = case["decls"]
+    toks = Tokens()
+    m = model()
+    res = dict(ok=True, kind="oracle", clause="", nontrivial=True, sig={}, desc=["surrogate=%s" % case["surrogate"], "normalize=%s" % bool(case.get("normalize"))])
+    p, accepted, errors, bad = declare(decls, toks)
+    if len(accepted) != len(decls):
+        return dict(res, ok=False, **bad) if bad else dict(res, ok=False, kind="corr", clause="sampling_case_declaration_rejected", detail=errors)
+    sp = convert_to_skopt_space(p.space, surrogate_model=case["surrogate"])
+    if case.get("normalize"):
+        sp.set_transformer("normalize")
+    by_name = dict(decls)
+    later = None
+    for name, dm in zip(p.hyperparameter_names, sp.dimensions):
+        spec = m.call(F_SPEC, enc_decl(by_name[name], toks))[0]
+        ends = {}
+        for mode in ("min", "max"):
+            st = make_stub(mode)
+            r = dm.rvs(n_samples=case.get("k", 3), random_state=st)
+            vals = [canon(v) for v in (list(r) if isinstance(r, (list, tuple, np.ndarray)) else [r])]
+            if not st.calls:
+                return dict(res, ok=False, kind="corr", clause="extreme_stub_not_used", detail=dict(name=name))
+            if any(not _same(v, vals[0]) for v in vals):
+                return dict(res, ok=False, kind="corr", clause="extreme_draws_differ", detail=dict(name=name, values=[repr(v) for v in vals]))
+            ends[mode] = vals[0]
+        res["desc"].append("dim=%s/%s" % (spec_desc(spec), dm.transform_))
+        code = m.call(F_OKSUPPORT, [spec, [enc_atom(ends["min"], toks, create=False), enc_atom(ends["max"], toks, create=False)]])
+        if code != 0:
+            cl = "extreme:" + SUPPORT_CLAUSE.get(code, str(code))
+            return dict(res, ok=False, clause=cl, sig=dict(clause=cl, dim=spec_desc(spec), transform=str(dm.transform_)),
+                        detail=dict(name=name, declared=by_name[name], at_u0=repr(ends["min"]), at_u1=repr(ends["max"])))
+        # correspondence with the model's quantile maps at the two ends: q(0) = lo exactly, integers reach hi exactly, first / last category
+        if spec[0] == 0:
+            want = (spec[1], spec[2])
+        elif spec[0] == 1:
+            want = (spec[1][0] / spec[1][1], None)
+        else:
+            rev = {v: k for k, v in toks.t.items()}
+            want = (dec_atom(spec[1][0], rev), dec_atom(spec[1][-1], rev))
+        if spec[0] == 1 and spec[3]:
+            want = (None, None)  # 10 ** log10(lo) is lo up to rounding (oracle pw / lg): the band of the oracle is the statement
+        if (want[0] is not None and not _same(ends["min"], want[0])) or (want[1] is not None and not _same(ends["max"], want[1])):
+            later = later or dict(kind="corr", clause="extreme_quantile_value", detail=dict(name=name, declared=by_name[name], want=[repr(w) for w in want], got=[repr(ends["min"]), repr(ends["max"])]))
+    if later or bad:
+        return dict(res, ok=False, **(later or bad))
+    return res
+
+
+def gen_extremes(count):
+    def gen(rng, tier):
+        for i in range(count * (2 if tier == "search" else 1)):
+            yield dict(decls=sampling_decls(rng, "all" if i % 4 == 0 else "some"), surrogate=["RF", "DUMMY", "GP", None][i % 4], normalize=i % 2 == 1, k=[3, 1, 50][i % 3])
     return gen
 
 
@@ -1072,7 +1194,7 @@ def gen_sampling(paths, per_path, n_draws):
             surs = {"space_rvs": ["RF", "DUMMY", None], "space_rvs_cs": ["RF", "DUMMY"], "cbo_ask": ["RF", "ET", "DUMMY", "GP", "TB"], "random_search": [None],
                     "dim_rvs": ["RF", "DUMMY"]}[path]
             for i in range(k):
-                decls = sampling_decls(rng, "all" if i % 6 == 0 else "some")
+                decls = sampling_decls(rng, "all" if i % 6 == 0 and not (path == "cbo_ask" and i % 5 == 2) else "some")
                 case = dict(decls=decls, surrogate=surs[i % len(surs)], path=path, seed=rng.randint(0, 2 ** 31 - 1), n=n_draws)
                 if path == "cbo_ask":
                     case["filter_duplicated"] = i % 2 == 1
@@ -1091,6 +1213,8 @@ def gen_sampling(paths, per_path, n_draws):
                 # one object, many calls of different sizes; the caller edits what it got back; pickling; other entry points
                 if i % 3 == 1 and not case.get("one_by_one"):
                     case["chunks"] = True
+                if path in ("space_rvs", "space_rvs_cs", "dim_rvs") and i % 6 == 4:
+                    case["chunks"] = "ones"      # n calls with n_samples = 1 (Space.rvs special-cases it on the ConfigSpace path)
                 if i % 4 in (1, 2):
                     case["mutate_returned"] = True
                 if i % 5 == 0:
@@ -1117,7 +1241,7 @@ def gen_sampling(paths, per_path, n_draws):
                             if others2:
                                 case["conditions"].append([rng.choice(others2), pn2, items2[0]])
                         case["conditions_plural"] = i % 6 == 0
-                        case["n"] = n_draws * min(max(len(items), 2), 3)
+                        case["n"] = n_draws * 2
                     elif reals:
                         rn = reals[0]
                         d = dict(decls)[rn]
@@ -1142,8 +1266,9 @@ def streams(tier):
     n = 16000 if th else 4000
     return [
         Stream("conversion", gen_conversion(30000 if th else 2500), check_conversion, shrink_conversion, timeout=60),
+        Stream("extreme_quantiles", gen_extremes(400 if th else 48), check_extremes, shrink_sampling, timeout=60),
         Stream("normalized_quantile", gen_quantile(3000 if th else 300), check_quantile, None, timeout=30),
-        Stream("space_rvs", gen_sampling(["space_rvs", "space_rvs_cs", "dim_rvs"], 90 if th else 12, n), check_sampling, shrink_sampling, timeout=300),
-        Stream("optimizer_ask", gen_sampling(["cbo_ask"], 160 if th else 30, n), check_sampling, shrink_sampling, timeout=300),
-        Stream("random_search", gen_sampling(["random_search"], 70 if th else 14, n), check_sampling, shrink_sampling, timeout=300),
+        Stream("space_rvs", gen_sampling(["space_rvs", "space_rvs_cs", "dim_rvs"], 70 if th else 11, n), check_sampling, shrink_sampling, timeout=300),
+        Stream("optimizer_ask", gen_sampling(["cbo_ask"], 140 if th else 25, n), check_sampling, shrink_sampling, timeout=300),
+        Stream("random_search", gen_sampling(["random_search"], 60 if th else 12, n), check_sampling, shrink_sampling, timeout=300),
     ]
